@@ -10,9 +10,8 @@ use refsem::print::Style;
 use serde_json::json;
 
 pub fn run(tier: Tier, replay_file: Option<&str>) -> i32 {
-    if replay_file.is_some() {
-        eprintln!("C17 replay: re-run the check (cases are identified by fingerprint + policy text in the replay file)");
-        return 2;
+    if let Some(p) = replay_file {
+        return replay_by_rerun("C17", p, || run(Tier::Quick, None));
     }
     let ctx = Ctx::new("C17", tier);
     quiet_panics();
